@@ -31,14 +31,18 @@ Collapse(s) == \* s has no leading blank: collapse inner runs, drop trailing bla
     ELSE <<s[1]>> \o Collapse(Tail(s))
 TrimS(s) == Collapse(StripLead(s))
 
-RECURSIVE FlattenArgs(_)
-FlattenArgs(args) == \* arrays contribute their elements row-major
-    IF Len(args) = 0 THEN <<>>
-    ELSE LET h == args[1] IN
-         (IF h.t = "arr" THEN ArrElems(h) ELSE <<h>>) \o FlattenArgs(Tail(args))
+\* (balanced recursion: argument lists of several hundred items would overflow TLC's stack otherwise)
+RECURSIVE FlattenRange(_, _, _)
+FlattenRange(args, i, j) == \* arrays contribute their elements row-major
+    IF i > j THEN <<>>
+    ELSE IF i = j THEN (IF args[i].t = "arr" THEN ArrElems(args[i]) ELSE <<args[i]>>)
+    ELSE LET m == (i + j) \div 2 IN FlattenRange(args, i, m) \o FlattenRange(args, m + 1, j)
+FlattenArgs(args) == FlattenRange(args, 1, Len(args))
 
-RECURSIVE JoinTexts(_)
-JoinTexts(xs) == IF Len(xs) = 0 THEN <<>> ELSE ToText(xs[1]).v \o JoinTexts(Tail(xs))
+RECURSIVE JoinRange(_, _, _)
+JoinRange(xs, i, j) == IF i > j THEN <<>> ELSE IF i = j THEN ToText(xs[i]).v
+                       ELSE LET m == (i + j) \div 2 IN JoinRange(xs, i, m) \o JoinRange(xs, m + 1, j)
+JoinTexts(xs) == JoinRange(xs, 1, Len(xs))
 
 ConcatV(args) ==
     LET xs == FlattenArgs(args)
